@@ -39,14 +39,15 @@ Proof. exact reader_order_meaning. Qed.
 Theorem C14_no_snapshot_listing_after_index : forall tr s, reader_orderb s true tr = true -> ~ In RListSnap tr.
 Proof. exact reader_no_snaplist_after_idx. Qed.
 
-Theorem C14_writer_snapshot_last : forall tr d, writer_orderb d true tr = true -> ~ In WPack tr /\ ~ In WIdx tr.
-Proof. exact writer_order_snap_last. Qed.
+Theorem C14_writer_index_between_pack_and_snapshot : forall l1 d l2 r,
+  writer_orderb d (l1 ++ WPack :: l2 ++ WSnap :: r) = true -> In WIdx l2.
+Proof. exact writer_index_between. Qed.
 
 Theorem C14_oracle_sound : forall c,
   check_C14 c = true <->
   match c with
   | CReader tr failed => reader_orderb false false tr = true /\ failed = false
-  | CWriter tr n => writer_orderb false false tr = true /\ n = 0
+  | CWriter tr n => writer_orderb false tr = true /\ n = 0
   | CWriterSem v0 tr => wfb v0 tr = true
   end.
 Proof. exact check_C14_spec. Qed.
@@ -64,6 +65,6 @@ Print Assumptions C14_indexed_meaning.
 Print Assumptions C14_order_matters_refuted.
 Print Assumptions C14_reader_order_meaning.
 Print Assumptions C14_no_snapshot_listing_after_index.
-Print Assumptions C14_writer_snapshot_last.
+Print Assumptions C14_writer_index_between_pack_and_snapshot.
 Print Assumptions C14_oracle_sound.
 Print Assumptions C14_accepted_writers_give_reader_guarantee.
